@@ -38,7 +38,11 @@ def dstep (s : DSt) (toks : List String) : DSt × String :=
     match r with
     | ["trigger", v] => if v == "0" then let (x, o) := Promise.stepLine s.p0 r; ({ s with p0 := x }, o) else (s, "bad-op")
     | _ => let (x, o) := Promise.stepLine s.p0 r; ({ s with p0 := x }, o)
-  | "vn" :: r => let (x, o) := Notifier.stepLine s.vn r; ({ s with vn := x }, o)
+  | "vn" :: r =>
+    match r with
+    | ["keytype", k] =>   -- the generic key type of the case's notifier: values are mapped injectively to keys, the model has no key types
+      (s, if ["int", "string", "struct", "any"].contains k then "ok" else "bad-op")
+    | _ => let (x, o) := Notifier.stepLine s.vn r; ({ s with vn := x }, o)
   | "om" :: r => let (x, o) := EventsOMap.stepLine s.om r; ({ s with om := x }, o)
   | "vr" :: r => (s, NotifierRace.checkLine r)
   | "mt" :: r => (s, EventsSpec.checkMT r)
